@@ -51,6 +51,8 @@ def mutations(rng, kb, ver):
         "KS00FF" + "0" * 509, "KS00FF" + "0" * 510, "KS00800" + "1" * 255, "KSFF" + "x" * 10, "KS05é", "KS05\ud800", "K", "KS", "KS0", "KS0G", "KSg0", "\x00\x0004",
         "PB04", "PB08é000", "pb08\ud800000", "Pb05\x00", "pB06\n\t", "PB0C" + "é" * 8, "PB00020010" + "é" * 6, "PB03", "PB", "P", "PB0", "PBFF",
         "Kı04", "KS08ab\x7fd", "KS 4", "KS+4", "KS-4", "T104T204T304", "T104T104",
+        # malformed length-of-length field of the extended form
+        "KS00G1", "KS00zz0004", "KS00 1", "KS00\n1", "KS00é1", "KS00\ud80001", "KS000", "KS00", "KS00-1", "KS00+1", "KS000x",
         # ids / data made of formatting metacharacters, alone and together with a length or data fault (error messages are built from them)
         "{S03", "{S", "{}", "{}03", "{}04", "}S0000", "{0}0", "%s03", "%d", "%s", "{S0G", "S{FF", "{{03", "}}03", "{S05\x00", "{S0002", "K}000200", "%(a)s03", "\\N03",
     ]
